@@ -28,6 +28,10 @@ pub enum Msg {
     DataHash { index: u64, nodes: Vec<WNode> },
     DataSeek { bytes: u64, nodes: Vec<WNode> },
     DataUpgrade { start: u64, length: u64, nodes: Vec<WNode>, additional_nodes: Vec<WNode>, sig_len: u32, sig_fill: u8 },
+    /// A value that cannot be put on the wire: the node at `pos` carries a hash of `hash_len` != 32
+    /// bytes. `carrier`: 0 Node, 1 DataBlock, 2 DataHash, 3 DataSeek, 4 DataUpgrade.nodes,
+    /// 5 DataUpgrade.additional_nodes. Encoding must fail, or else keep all of its promises.
+    BadHash { carrier: u8, pos: u8, hash_len: u8, nodes: Vec<WNode> },
 }
 
 fn hash_of_fill(f: u8) -> Vec<u8> {
@@ -73,6 +77,7 @@ pub fn ref_encode(m: &Msg) -> Vec<u8> {
             put_uint(&mut o, *bytes);
             ref_nodes(&mut o, nodes);
         }
+        Msg::BadHash { .. } => {}
         Msg::DataUpgrade { start, length, nodes, additional_nodes, sig_len, sig_fill } => {
             put_uint(&mut o, *start);
             put_uint(&mut o, *length);
@@ -141,6 +146,10 @@ fn check_value<T: CompactEncoding + PartialEq + std::fmt::Debug>(v: &T, referenc
     }
     // every strict prefix is an error, never a panic
     for k in 0..n {
+        // long encodings (> 4 KiB): both ends and every 61st prefix in between
+        if n > 4096 && k > 700 && k + 700 < n && k % 61 != 0 {
+            continue;
+        }
         let r = catch(|| T::decode(&buf[..k]).map(|(d, rest)| (format!("{d:?}"), rest.len())));
         match r {
             Ok(Err(_)) => {}
@@ -153,7 +162,58 @@ fn check_value<T: CompactEncoding + PartialEq + std::fmt::Debug>(v: &T, referenc
     Ok(())
 }
 
+/// A value with a node hash that is not 32 bytes: encode may refuse it; if it accepts it, the
+/// announced size, the bytes consumed and the round trip must still agree.
+fn check_unencodable<T: CompactEncoding + PartialEq + std::fmt::Debug>(v: &T, what: &str) -> Check {
+    let n = match v.encoded_size() {
+        Ok(n) => n,
+        Err(_) => return Ok(()),
+    };
+    let mut buf = vec![0xAAu8; n + 80];
+    let total = buf.len();
+    let rest_len = match v.encode(&mut buf) {
+        Ok(rest) => rest.len(),
+        Err(_) => return Ok(()),
+    };
+    if total - rest_len != n {
+        return Err(Failure::new("encode-consumed-mismatch", format!("{what}: encode succeeded, consumed {} bytes, announced {n}", total - rest_len)));
+    }
+    match T::decode(&buf[..n]) {
+        Ok((d, rest)) if rest.is_empty() && d == *v => Ok(()),
+        Ok((d, rest)) => Err(Failure::new("roundtrip-mismatch", format!("{what}: encode succeeded but decode gives {d:?} (rest {})", rest.len()))),
+        Err(e) => Err(Failure::new("decode-error", format!("{what}: encode succeeded but decoding its output failed: {e}"))),
+    }
+}
+
+fn check_bad_hash(carrier: u8, pos: u8, hash_len: u8, nodes: &[WNode], what: &str) -> Check {
+    let mut w: Vec<WNode> = nodes.to_vec();
+    if w.is_empty() {
+        w.push(WNode { index: 1, length: 2, fill: 3 });
+    }
+    let mut v = mk_nodes(&w);
+    let pos = pos as usize % v.len();
+    let hl = if hash_len == 32 { 33 } else { hash_len } as usize;
+    v[pos] = Node::new(w[pos].index, (0..hl).map(|i| i as u8 | 1).collect(), w[pos].length);
+    match carrier % 6 {
+        0 => check_unencodable(&v.swap_remove(pos), what),
+        1 => check_unencodable(&DataBlock { index: 7, value: vec![1, 2, 3], nodes: v }, what),
+        2 => check_unencodable(&DataHash { index: 7, nodes: v }, what),
+        3 => check_unencodable(&DataSeek { bytes: 7, nodes: v }, what),
+        4 => check_unencodable(&DataUpgrade { start: 0, length: 9, nodes: v, additional_nodes: vec![], signature: vec![5; 64] }, what),
+        _ => check_unencodable(&DataUpgrade { start: 0, length: 9, nodes: vec![], additional_nodes: v, signature: vec![5; 64] }, what),
+    }
+}
+
 pub fn check_msg(m: &Msg, local: &mut Local) -> Check {
+    if let Msg::BadHash { carrier, pos, hash_len, nodes } = m {
+        let what = truncate(&format!("{m:?}"), 300);
+        local.class("values_with_a_node_hash_that_is_not_32_bytes");
+        local.nontrivial(m);
+        return match catch(|| check_bad_hash(*carrier, *pos, *hash_len, nodes, &what)) {
+            Ok(c) => c,
+            Err(p) => Err(Failure::new(format!("panic:{}", p.signature()), format!("{what}: encoding the value panicked: {}", p.0))),
+        };
+    }
     let reference = ref_encode(m);
     let what = format!("{m:?}");
     let what = truncate(&what, 300);
@@ -168,6 +228,7 @@ pub fn check_msg(m: &Msg, local: &mut Local) -> Check {
             }
             Msg::DataHash { index, nodes } => check_value(&DataHash { index: *index, nodes: mk_nodes(nodes) }, &reference, &what),
             Msg::DataSeek { bytes, nodes } => check_value(&DataSeek { bytes: *bytes, nodes: mk_nodes(nodes) }, &reference, &what),
+            Msg::BadHash { .. } => Ok(()),
             Msg::DataUpgrade { start, length, nodes, additional_nodes, sig_len, sig_fill } => check_value(
                 &DataUpgrade { start: *start, length: *length, nodes: mk_nodes(nodes), additional_nodes: mk_nodes(additional_nodes), signature: bytes_of(*sig_len, *sig_fill) },
                 &reference,
@@ -188,6 +249,7 @@ pub fn check_msg(m: &Msg, local: &mut Local) -> Check {
         Msg::DataBlock { value_len, nodes, index, .. } => *value_len > 0 || !nodes.is_empty() || *index >= 253,
         Msg::DataHash { nodes, index } => !nodes.is_empty() || *index >= 253,
         Msg::DataSeek { nodes, bytes } => !nodes.is_empty() || *bytes >= 253,
+        Msg::BadHash { .. } => true,
         Msg::DataUpgrade { nodes, additional_nodes, sig_len, start, length, .. } => !nodes.is_empty() || !additional_nodes.is_empty() || *sig_len > 0 || *start >= 253 || *length >= 253,
     };
     if nontrivial {
@@ -207,13 +269,21 @@ fn int_strategy() -> impl Strategy<Value = u64> {
     ]
 }
 fn len_strategy() -> impl Strategy<Value = u32> {
-    prop_oneof![Just(0u32), Just(1), Just(252), Just(253), Just(300), 0u32..=300]
+    prop_oneof![
+        40 => prop_oneof![Just(0u32), Just(1), Just(252), Just(253), Just(300), 0u32..=300],
+        // the 16-bit boundary of the length prefix (rare: these values are 64 KiB each)
+        1 => prop_oneof![Just(65534u32), Just(65535), Just(65536), Just(65537)],
+    ]
 }
 fn wnode_strategy() -> impl Strategy<Value = WNode> {
     (int_strategy(), int_strategy(), any::<u8>()).prop_map(|(index, length, fill)| WNode { index, length, fill })
 }
 fn wnodes() -> impl Strategy<Value = Vec<WNode>> {
-    prop::collection::vec(wnode_strategy(), 0..=8)
+    prop_oneof![
+        60 => prop::collection::vec(wnode_strategy(), 0..=8),
+        // the one-byte boundary of the list length prefix
+        1 => (251usize..=254, any::<u8>()).prop_map(|(n, f)| (0..n).map(|i| WNode { index: i as u64, length: (i as u64) << (i % 40), fill: f.wrapping_add(i as u8) }).collect()),
+    ]
 }
 
 pub fn msg_strategy() -> impl Strategy<Value = Msg> {
@@ -227,6 +297,8 @@ pub fn msg_strategy() -> impl Strategy<Value = Msg> {
         2 => (int_strategy(), wnodes()).prop_map(|(bytes, nodes)| Msg::DataSeek { bytes, nodes }),
         3 => (int_strategy(), int_strategy(), wnodes(), wnodes(), prop_oneof![Just(64u32), len_strategy()], any::<u8>())
             .prop_map(|(start, length, nodes, additional_nodes, sig_len, sig_fill)| Msg::DataUpgrade { start, length, nodes, additional_nodes, sig_len, sig_fill }),
+        1 => (0u8..6, any::<u8>(), prop_oneof![Just(0u8), Just(31), Just(33), Just(64), any::<u8>()], prop::collection::vec(wnode_strategy(), 0..=8))
+            .prop_map(|(carrier, pos, hash_len, nodes)| Msg::BadHash { carrier, pos, hash_len, nodes }),
     ]
 }
 
@@ -264,6 +336,30 @@ pub fn boundary_msgs() -> Vec<Msg> {
             }
         }
     }
+    // byte strings and node lists at the boundaries of their length prefixes
+    for vl in [65534u32, 65535, 65536, 65537] {
+        out.push(Msg::DataBlock { index: 1, value_len: vl, value_fill: 5, nodes: vec![] });
+        out.push(Msg::DataBlock { index: 253, value_len: vl, value_fill: 6, nodes: vec![WNode { index: 2, length: 65535, fill: 1 }] });
+        out.push(Msg::DataUpgrade { start: 0, length: 65536, nodes: vec![WNode { index: 1, length: 2, fill: 3 }], additional_nodes: vec![], sig_len: vl, sig_fill: 7 });
+    }
+    for nl in [251usize, 252, 253, 254, 300] {
+        let nodes: Vec<WNode> = (0..nl).map(|i| WNode { index: 2 * i as u64, length: b[i % 12], fill: i as u8 }).collect();
+        out.push(Msg::DataHash { index: 0, nodes: nodes.clone() });
+        out.push(Msg::DataSeek { bytes: 65535, nodes: nodes.clone() });
+        out.push(Msg::DataBlock { index: 0, value_len: 253, value_fill: 1, nodes: nodes.clone() });
+        out.push(Msg::DataUpgrade { start: 0, length: 1, nodes: nodes.clone(), additional_nodes: nodes.clone(), sig_len: 64, sig_fill: 2 });
+    }
+    // node hashes that are not 32 bytes, in every carrier and position
+    for carrier in 0u8..6 {
+        for hash_len in [0u8, 1, 31, 33, 63, 64, 255] {
+            for nl in [1usize, 2, 3] {
+                for pos in 0..nl as u8 {
+                    let nodes: Vec<WNode> = (0..nl).map(|i| WNode { index: i as u64, length: 1, fill: i as u8 }).collect();
+                    out.push(Msg::BadHash { carrier, pos, hash_len, nodes });
+                }
+            }
+        }
+    }
     out
 }
 
@@ -274,7 +370,9 @@ pub fn run(ctx: &Ctx) {
          of the fields in protocol order, bytes equal; decode yields the value with nothing left; with trailing bytes exactly those are \
          left; EVERY strict prefix decodes to Err under catch_unwind. Stage 1 enumerates the cross product of the 12 varint boundary \
          integers for the request types and Node plus boundary x list length 0..8 x byte-string lengths {0,1,252,253,300} for the data \
-         types; stage 2 draws seeded-random values. Non-trivial = value with an integer >= 253 or a non-empty list/byte string.",
+         types, plus byte strings of 65534..65537 bytes and lists of 251..300 nodes (for encodings above 4 KiB the strict prefixes are \
+         the first and last 700 and every 61st in between), plus values whose node hash is not 32 bytes in every carrier/position \
+         (encode must fail, or else consume the announced size and round-trip); stage 2 draws seeded-random values of all of these. Non-trivial = value with an integer >= 253 or a non-empty list/byte string.",
     );
     let msgs = boundary_msgs();
     let n = msgs.len() as u64;
